@@ -306,7 +306,8 @@ class CompositeFrontend(ConstrainedFrontend):
     #
 
     def _ensure_sat(self, extra_constraints):
-        if self._unsat or (len(extra_constraints) == 0 and not self.satisfiable()):
+        # the children that the query does not touch must be satisfiable too, with or without extra constraints
+        if self._unsat or not self.satisfiable():
             raise UnsatError("CompositeSolver is already unsat")
 
     def check_satisfiability(self, extra_constraints=(), exact=None):
